@@ -129,4 +129,110 @@ example (x : ISt) (h : irun 1 ctx "W2" ["A2"] x0 evsE = some x) :
 
 theorem runE_some : (irun 1 ctx "W2" ["A2"] x0 evsE).isSome = true := by decide
 
+-- ------------------------------------------------------------------ non-vacuity of `remove_interleaved_reachable`
+
+/-- a C09 world: the fresh two-wallet store of `RemoveMidCex` on the genesis block, in sync with its node -/
+def nodeG : Node := { chain := [g], known := known }
+def envR : MW.Lemmas.PendHist.HEnv := { p := ctx.p, own := own, wallets := ["W1", "W2"], src := fun _ => none }
+def wG : MW.Lemmas.PendHist.HW := { node := nodeG, s := s0, v := { best := ⟨0, "G"⟩ }, sp := { chain := [g] } }
+def node1 : Node := { chain := [g, b1], known := known }
+/-- after the flag: the node announces B1 (it pays W2 twice — not booked — and W1 once) · the removal step -/
+def evsR : List IEv := [.notify node1 b1, .rem]
+
+theorem freshR : FreshStore (envR.ctx nodeG) s0 g where
+  credits := rfl
+  unspent := rfl
+  debits := rfl
+  game := rfl
+  txrecs := rfl
+  blocks := rfl
+  sync := rfl
+  syncedTo := rfl
+  balance := by
+    intro w hw
+    change (readyWallets s0 ["W1", "W2"]).contains w = true at hw
+    rw [ready0] at hw
+    have : w = "W1" ∨ w = "W2" := by simpa using hw
+    rcases this with rfl | rfl <;> rfl
+  genesis := rfl
+
+theorem hinvR : MW.Lemmas.PendHist.Cred.HInvC (fun _ => 0) envR wG :=
+  ⟨{ inv := MW.Lemmas.Ledger.inv_fresh freshR
+     ar := by show AllReady own (readyWallets s0 ["W1", "W2"]); rw [ready0]; exact allReady
+     ne := by decide
+     rel := ⟨⟨fun _ _ h => (by cases h), fun _ _ h => (by obtain ⟨_, h, _⟩ := h; cases h), fun _ _ h => (by cases h),
+       fun _ h => (by cases h), fun _ _ h => (by cases h)⟩, fun id t => ⟨fun h => (by cases h), fun h => (by cases h.1)⟩,
+       List.nodup_nil⟩
+     cons := fun _ h => by cases h
+     sidx := fun _ h => by cases h
+     nocb := fun _ h => by cases h
+     relv := fun _ h => by cases h
+     srcP := fun _ h => by cases h },
+   ⟨fun _ _ _ h => (by cases h), fun _ h => (by cases h), fun _ _ _ _ h => (by cases h), fun _ h => (by cases h)⟩⟩
+
+theorem good1 : GoodChain [g] := by
+  refine ⟨?_, ?_, by simp⟩
+  · intro i x h
+    match i with
+    | 0 => simp at h; rw [← h]; rfl
+    | n + 1 => simp at h
+  · intro i x y _ hy
+    simp at hy
+
+theorem good2 : GoodChain [g, b1] := by
+  refine ⟨?_, ?_, by simp⟩
+  · intro i x h
+    match i with
+    | 0 => simp at h; rw [← h]; rfl
+    | 1 => simp at h; rw [← h]; rfl
+    | n + 2 => simp at h
+  · intro i x y hx hy
+    match i with
+    | 0 => simp at hx hy; rw [← hx, ← hy]; rfl
+    | n + 1 => simp at hy
+
+theorem node1_ok : NodeOK own g known node1 b1 where
+  good := good2
+  valid := by show ChainValid own [g, b1]; decide
+  genesis := rfl
+  known := by
+    intro x hx
+    change x ∈ [g, b1] at hx
+    simp only [List.mem_cons, List.not_mem_nil, or_false] at hx
+    rcases hx with rfl | rfl <;> rfl
+  grows := fun _ _ h => h
+  tip := rfl
+
+theorem domR : DomE 1 (envR.ctx nodeG) "W2" ["A2"] g
+    { s := (removeWallet 0 ["W1", "W2"] true s0 "W2").2, v := { best := ⟨0, "G"⟩ }, node := nodeG } evsR := by
+  refine ⟨⟨evDom_of_check (by decide) (fun n b h => by cases h; rfl), node1_ok⟩, ?_⟩
+  cases istep 1 (envR.ctx nodeG) "W2" ["A2"]
+      { s := (removeWallet 0 ["W1", "W2"] true s0 "W2").2, v := { best := ⟨0, "G"⟩ }, node := nodeG }
+      (.notify node1 b1) with
+  | none => trivial
+  | some x1 =>
+    refine ⟨⟨trivial, trivial⟩, ?_⟩
+    cases istep 1 (envR.ctx nodeG) "W2" ["A2"] x1 .rem <;> trivial
+
+/-- **every hypothesis of `remove_interleaved_reachable` is met** (the C09 history is the empty one from the fresh
+    world): RemoveWallet for W2 is accepted on the fresh two-wallet store, the node announces B1, the removal step
+    finishes — C01's invariant for W1 alone on G – B1 -/
+example (x : ISt)
+    (h : irun 1 (envR.ctx nodeG) "W2" ["A2"]
+      { s := (removeWallet 0 ["W1", "W2"] true s0 "W2").2, v := { best := ⟨0, "G"⟩ }, node := nodeG } evsR = some x) :
+    Inv { (envR.ctx nodeG) with own := own', wallets := ["W1"], node := x.node } x.s x.node.chain := by
+  have hr : (irun 1 (envR.ctx nodeG) "W2" ["A2"]
+      { s := (removeWallet 0 ["W1", "W2"] true s0 "W2").2, v := { best := ⟨0, "G"⟩ }, node := nodeG } evsR).map (·.fin) =
+      some true := by decide
+  rw [h] at hr
+  simp only [Option.map_some, Option.some.injEq] at hr
+  exact remove_interleaved_reachable (rank := fun _ => 0) (E := envR) [] wG hinvR List.nodup_nil List.nodup_nil
+    (fun _ hx => by cases hx) wG rfl rfl good1 (by show ChainValid own [g]; decide) rfl
+    (by intro y hy; simp only [wG, List.mem_cons, List.not_mem_nil, or_false] at hy; subst hy; rfl)
+    (q := 0) (ks := ["W1", "W2"]) (po := true) (w := "W2") (by decide)
+    (by show (readyWallets s0 ["W1", "W2"]).contains "W2" = true; rw [ready0]; rfl)
+    ⟨"W1", by decide, by show (readyWallets s0 ["W1", "W2"]).contains "W1" = true; rw [ready0]; rfl⟩
+    (⟨remHyp.minus, managed, by decide, own_nodup⟩ : Static (envR.ctx nodeG) "W2" ["A2"] own')
+    (v := { best := ⟨0, "G"⟩ }) (by decide) domR h hr only_w1
+
 end MW.Lemmas.RemoveInterleave4Ex
